@@ -353,7 +353,7 @@ theorem onBdry_accepted (τ : Tol K) (hτ : τ.ok) (D : Dom K) (pts ρ : Env K) 
       rcases he with h | h | h
       · exact Or.inl h
       · exact Or.inr (Or.inl h)
-      · exact Or.inr (Or.inr h.1)
+      · exact Or.inr (Or.inr h)
     | circle v c r =>
       obtain ⟨x, y, cx, cy, rr, hp, hc, hr, h0, hon⟩ := h
       exact bdry_circle_accepts τ hτ v c r pts ρ x y cx cy rr hp hc hr h0 hon
